@@ -132,3 +132,47 @@ def init_param_to_attr(ctx, cls: ClassInfo) -> Dict[str, str]:
                 and isinstance(n.value, ast.Name) and n.value.id in pnames:
             out[n.value.id] = n.targets[0].attr
     return out
+
+
+def self_state_writes(p, fn, include_init: bool = False):
+    """[(function, node, kind)] for every write to an attribute / container of `self` (kind 'state-write') and every use of
+    id() (kind 'identity') in `fn` and in the methods of its class that it calls through self (transitively)"""
+    out = []
+    todo, seen = [fn], set()
+    while todo:
+        f = todo.pop()
+        if f.qualname in seen:
+            continue
+        seen.add(f.qualname)
+        me = f.self_name
+        if me is None:
+            continue
+        for node in ast.walk(f.node):
+            hit = None
+            if isinstance(node, (ast.Assign, ast.AugAssign, ast.AnnAssign)):
+                targets = node.targets if isinstance(node, ast.Assign) else [node.target]
+                for t in targets:
+                    base = t
+                    while isinstance(base, (ast.Subscript, ast.Attribute)):
+                        if isinstance(base, ast.Attribute) and isinstance(base.value, ast.Name) and base.value.id == me:
+                            hit = node
+                            break
+                        base = base.value
+            if isinstance(node, ast.Call) and isinstance(node.func, ast.Attribute) and node.func.attr in (
+                    "append", "extend", "insert", "update", "setdefault", "add", "pop", "clear", "remove", "__setitem__"):
+                base = node.func.value
+                while isinstance(base, (ast.Subscript, ast.Attribute)):
+                    if isinstance(base, ast.Attribute) and isinstance(base.value, ast.Name) and base.value.id == me:
+                        hit = node
+                        break
+                    base = base.value
+            if hit is not None:
+                out.append((f, node, "state-write"))
+            if isinstance(node, ast.Call) and isinstance(node.func, ast.Name) and node.func.id == "id":
+                out.append((f, node, "identity"))
+            if isinstance(node, ast.Call) and isinstance(node.func, ast.Attribute) and isinstance(node.func.value, ast.Name) \
+                    and node.func.value.id == me and f.cls is not None:
+                callee = p.lookup_method(f.cls, node.func.attr, None)
+                if callee is not None and (include_init or callee.name != "__init__"):
+                    todo.append(callee)
+    return out, len(seen)
